@@ -181,12 +181,17 @@ func c03Val(p *proto.Parameter) string {
 // c03Observe reads the database of an open leader with a strong read (which
 // forces every committed entry to be applied first) in the format of c03Model.dump.
 func c03Observe(s *Store) (string, error) {
+	return c03ObserveAt(s, proto.ConsistencyLevel_STRONG)
+}
+
+// c03ObserveAt is c03Observe with a chosen read consistency level.
+func c03ObserveAt(s *Store, level proto.ConsistencyLevel) (string, error) {
 	qr := queryRequestFromStrings([]string{
 		"SELECT id, v FROM t ORDER BY id",
 		"SELECT count(*), sum(n) FROM c",
 		"SELECT id, length(b), substr(b,1,12) FROM big ORDER BY id",
 	}, false, false, false)
-	qr.Level = proto.ConsistencyLevel_STRONG
+	qr.Level = level
 	rows, _, _, err := s.Query(context.Background(), qr)
 	if err != nil {
 		return "", err
